@@ -244,7 +244,9 @@ class Context(object):
             try:
                 with open(filename, 'rb') as fh:
                     d = pickle.load(fh)
-                    if rtype not in list(d.keys()):
+                    # A damaged file can load and still not hold a
+                    # dictionary for this renderer; start that entry afresh
+                    if not isinstance(d.get(rtype), dict):
                         d[rtype] = {}
             except:
                 os.remove(filename)
